@@ -213,3 +213,52 @@ def resample_refusals(case, ctx):
                       "resample of a plane without pixel scale")
     if not np.array_equal(np.asarray(p.amplitude), amp):
         raise Violation("C17.resample.refuse_mutates", "refused resample changed the plane")
+
+
+# --- planes with hundreds of segments ---------------------------------------------------------------------------
+
+@hyp("C17", "many_segments", lambda tier: st.fixed_dictionaries(
+        {"rows": st.integers(12, 20), "cols": st.integers(13, 22), "seg": st.integers(3, 4),
+         "scale": st.sampled_from([1, 2, 1.5, 3]), "via_resample": st.booleans(), "seed": st.integers(0, 2**31 - 1)}),
+     "a raster of 156..440 square segments (one mask slice each): rescale / resample keeps every segment, binary, "
+     "non-empty and in order, with the pixel scale divided by s and ceil(n*s) samples", examples=(6, 30), budget_s=(150, 600))
+def many_segments(case, ctx):
+    R, C, g = case["rows"], case["cols"], case["seg"]
+    nseg = R * C
+    pitch = g + 1
+    m, n = R * pitch + 1, C * pitch + 1
+    mask = np.zeros((nseg, m, n), dtype=int)
+    k = 0
+    for i in range(R):
+        for j in range(C):
+            mask[k, 1 + i * pitch:1 + i * pitch + g, 1 + j * pitch:1 + j * pitch + g] = 1
+            k += 1
+    yy, xx = np.mgrid[0:m, 0:n]
+    amp = np.exp(-((yy - m / 2) ** 2 + (xx - n / 2) ** 2) / (2 * (0.4 * max(m, n)) ** 2)) * mask.sum(axis=0)
+    s = case["scale"]
+    ps = 1e-3
+    ctx.tag(f"segments:{'>=256' if nseg >= 256 else '<256'}", f"s:{s}", "resample" if case["via_resample"] else "rescale")
+    ctx.nontrivial_if(nseg >= 256)
+    with lentil_call("C17.many.build", f"Pupil with {nseg} segments"):
+        p = lentil.Pupil(amplitude=amp.copy(), opd=np.zeros((m, n)), mask=mask.copy(), pixelscale=ps, focal_length=5.0)
+    with lentil_call("C17.many.rescale", f"{'resample' if case['via_resample'] else 'rescale'}(s={s}) of {nseg} segments"):
+        q = p.resample(ps / s) if case["via_resample"] else p.rescale(s)
+    qm = np.asarray(q.mask)
+    want = (int(np.ceil(m * s)), int(np.ceil(n * s)))
+    if qm.ndim != 3 or qm.shape[0] != nseg or qm.shape[1:] != want:
+        raise Violation("C17.many.structure", f"mask of shape {qm.shape} after rescale(s={s}) of a {mask.shape} segmented mask "
+                                              f"(expected {(nseg,) + want})")
+    if not np.all((qm == 0) | (qm == 1)):
+        raise Violation("C17.many.binary", "rescaled mask is not binary")
+    empty = [i for i in range(nseg) if not qm[i].any()]
+    if empty:
+        raise Violation("C17.many.lost_segment", f"segments {empty[:5]}... of {nseg} are empty after rescale(s={s})")
+    # every segment stays where it was (centre of its bounding box scales with s, to within a sample and a half)
+    for i in (0, nseg // 3, 255 if nseg > 255 else nseg - 1, 256 if nseg > 256 else nseg - 1, nseg - 1):
+        b0, b1 = gen.bbox(mask[i] != 0), gen.bbox(qm[i] != 0)
+        c0 = ((b0[0] + b0[1]) / 2 * s, (b0[2] + b0[3]) / 2 * s)
+        c1 = ((b1[0] + b1[1]) / 2, (b1[2] + b1[3]) / 2)
+        if abs(c0[0] - c1[0]) > 1.5 + s or abs(c0[1] - c1[1]) > 1.5 + s:
+            raise Violation("C17.many.order", f"segment {i} of {nseg} moved from {c0} (scaled) to {c1} after rescale(s={s})")
+    if tuple(q.pixelscale) != (ps / s, ps / s):
+        raise Violation("C17.many.pixelscale", f"pixel scale {tuple(q.pixelscale)} != {(ps / s, ps / s)}")
